@@ -500,7 +500,7 @@ macro_rules! c10_tree_float {
 //@ besteffort: yes
 //@ prop: C10
 //@ tier: thorough
-//@ cap: 3600
+//@ cap: 1500
 //@ funcs: WeightedTreeIndex::<f32>::new; try_sample (incl. its two internal assert!s); get; rand UniformFloat::<f32>::sample_single
 //@ bounds: 3 f32 weights that are integers <= 2^20 (all subtotals exact); every word
 //@ assumes: weights outside this class are the region of known finding tree_float_assert (decided by the witness harness)
